@@ -23,6 +23,9 @@ def main():
         n = int(rng.integers(1, 9))
         names = ['label'] + [f'f{i}' for i in range(n + 1)]      # some candidates contain the label column, some do not
         universe = list(itertools.combinations(names, 2))
+        if hist % 4 == 2:
+            # candidates are arbitrary hashable tuples: a pair and its mirror are different candidates
+            universe = universe + [(b, a) for a, b in universe[:max(1, len(universe) // 2)]]
         rng.shuffle(universe)
         L = [tuple(x) for x in universe[:n]]
         other = [tuple(x) for x in universe[n:n + 3]]
@@ -69,6 +72,31 @@ def main():
                 h.fail('history.exactly_cap_distinct', wit, f'result {res}')
             if not arbitrary and any(CR.GLOBAL_PRIOR_COMB_COUNTS[x] != selected[x] for x in L):
                 h.fail('history.count_is_selection', wit, f'{dict(CR.GLOBAL_PRIOR_COMB_COUNTS)} vs {selected}')
+    # ---- the export: combination_estimation_counts.json of a real CLI run equals the number of batches each pair was evaluated in
+    import json
+    import os
+    import tempfile
+    import e2e
+    rows = [[str(int(v)) for v in rng.integers(0, 3, 4)] + [str(int(rng.integers(0, 2)))] for _ in range(3 * 1100 + 1100 + 30)]
+    with tempfile.TemporaryDirectory(dir=os.getcwd()) as d:
+        e2e.write_csv(d, ['f0', 'f1', 'f2', 'f3', 'label'], rows)
+        cap, nb = 3, 3          # two full batches of 1650 rows ... computed below
+        B = 1650
+        res = e2e.run_cli(d, {'task': 'ranking', 'heuristic': 'MI-numba-randomized', 'minibatch_size': B, 'subsampling': 1, 'num_threads': 1,
+                              'combination_number_upper_bound': cap, 'target_ranking_only': 'True'})
+        h.record(('export',), True)
+        n_batches = len(rows) // B + (1 if len(rows) % B > 1024 else 0)
+        js = res['files'].get('combination_estimation_counts.json')
+        wit = {'rows': len(rows), 'minibatch_size': B, 'cap': cap, 'batches_ranked': n_batches}
+        if res['rc'] != 0 or js is None:
+            h.fail('export.cli_completes', wit, f"rc={res['rc']} {res['stderr'][-300:]}")
+        else:
+            counts = json.loads(js)
+            vals = list(counts.values())
+            if sum(vals) != cap * n_batches or (vals and max(vals) - min(vals) > 1) or len(vals) != 5:
+                h.fail('export.reported_counts_equal_selections', dict(wit, exported=counts),
+                       f'exported counts sum to {sum(vals)}, expected cap * batches = {cap * n_batches} over 5 label pairs differing by at most one')
+    h.bounded_note('combination_estimation_counts.json of a real CLI run (2 full batches + a tail above 1024 rows)', '1 run, cap 3 of 5 pairs', 1)
     h.bounded_note('fairness / exact-cap / count==selections over random histories on the real function (caps change '
                    'between batches, caps larger than the list, interleaved calls on a disjoint list)',
                    f'{n_hist} histories, lists of 1..8 candidates, up to 11 batches', h.evaluations)
